@@ -171,10 +171,40 @@ func (c *Ctx) basicLatinModel() (blProblems, *ast.FuncDecl) {
 			seg := p[i+1 : end]
 			lowEnd := rangesP + "[" + iv + "]"
 			if !seg.holds(lowEnd + "<128") {
-				if len(stores(seg)) > 0 {
-					add("array-indices-bounded", "runes of a range are stored without the test that the range starts below 128")
+				// either the pair is skipped (nothing stored), or every store sits in a rune loop whose own condition keeps
+				// the rune below 128 (the test of the low end is then implied by the first evaluation of that condition)
+				outside, inCounted := 0, 0
+				var open []bool
+				for _, e2 := range seg {
+					switch e2.Kind {
+					case "loop":
+						c := counted128Re.MatchString(e2.Text)
+						open = append(open, c)
+						if c {
+							inCounted++
+						}
+					case "endloop":
+						if n := len(open); n > 0 {
+							if open[n-1] {
+								inCounted--
+							}
+							open = open[:n-1]
+						}
+					default:
+						if inCounted == 0 && len(stores(bpath{e2})) > 0 {
+							outside++
+						}
+					}
 				}
-				continue
+				if outside > 0 || seg.holds(lowEnd+">=128") {
+					if len(stores(seg)) > 0 {
+						add("array-indices-bounded", "runes of a range are stored without the test that the range starts below 128")
+					}
+					continue
+				}
+				if len(stores(seg)) == 0 {
+					continue
+				}
 			}
 			// inner loop
 			found := false
